@@ -128,9 +128,11 @@ func c14Run(ctx *core.Ctx, msize uint32, dotu bool, thorough bool) core.Result {
 				res.Count("files_read_through_a_symlink", 1)
 			}
 		}
-		f, err := c.FOpen(openName, go9p.OREAD)
+		// every mode that allows reading: OREAD, ORDWR, and OEXEC (read, checking execute permission)
+		rmode := []uint8{go9p.OREAD, go9p.ORDWR, go9p.OEXEC}[li%3]
+		f, err := c.FOpen(openName, rmode)
 		if err != nil {
-			fail("open-failed", fmt.Sprintf("FOpen(%s): %v", openName, err), nil)
+			fail("open-failed", fmt.Sprintf("FOpen(%s, mode %d): %v", openName, rmode, err), nil)
 			continue
 		}
 		lc := lenClass(n, iou)
@@ -707,6 +709,12 @@ func c15Cases(tier string, seed int64) []core.Case {
 			serverOffersDotu = true
 			defer func() { serverOffersDotu = false }()
 			return c15Run(ctx, n, false, false)
+		}})
+	}
+	for _, dotu := range []bool{true, false} {
+		dotu := dotu
+		cases = append(cases, core.Case{ID: fmt.Sprintf("pipelined-restart-and-continuation/dotu=%v", dotu), Run: func(ctx *core.Ctx) core.Result {
+			return c15Pipelined(ctx, dotu)
 		}})
 	}
 	// an entry larger than a file-system block: a symbolic link whose target (carried in the 9P2000.u extension) is
@@ -1396,5 +1404,128 @@ func c14Renegotiated(ctx *core.Ctx, dotu bool) core.Result {
 		}
 	}
 	res.Sample(map[string]interface{}{"scenario": "reads and writes after every Tversion of a connection that negotiates several times", "dotu": dotu})
+	return res
+}
+
+// c15Pipelined: the offset rule with requests in flight together on one fid. The directory (2 500 entries, it does
+// not change) is listed once, one read at a time: that gives the legal offsets and the bytes that belong to each.
+// Then a read at offset 0 (which makes the server take a fresh look at the directory) is sent together with reads at
+// legal offsets of the second half. Whichever order the server serves them in, every reply is whole records and,
+// the directory being the same before and after, exactly the bytes the sequential listing had there.
+func c15Pipelined(ctx *core.Ctx, dotu bool) core.Result {
+	var res core.Result
+	e, err := newEnv(ctx, "c15p", dotu, 1<<20)
+	if err != nil {
+		res.Inconclusive = err.Error()
+		return res
+	}
+	defer e.cleanup()
+	r := core.NewRand(ctx.Seed, fmt.Sprintf("c15pipe/%v", dotu))
+	dir := filepath.Join(e.root, "big")
+	_ = os.Mkdir(dir, 0o755)
+	const nent = 2500
+	for i := 0; i < nent; i++ {
+		l := 4 + r.Intn(60)
+		name := (fmt.Sprintf("p%d-", i) + strings.Repeat(string(rune('a'+i%26)), l))[:l+2]
+		_ = os.WriteFile(filepath.Join(dir, name), nil, 0o644)
+	}
+	rc, err := e.raw(8192, dotu)
+	if err != nil {
+		res.Inconclusive = err.Error()
+		return res
+	}
+	defer rc.Hangup()
+	rr := &rawc{c: rc}
+	if w := rr.rpc(&wire.Msg{Type: wire.Twalk, Fid: 0, Newfid: 9, Wname: []string{"big"}}); w == nil || w.Type != wire.Rwalk {
+		res.Inconclusive = "c15 pipelined: walk failed"
+		return res
+	}
+	if o := rr.rpc(&wire.Msg{Type: wire.Topen, Fid: 9, Mode: 0}); o == nil || o.Type != wire.Ropen {
+		res.Inconclusive = "c15 pipelined: open failed"
+		return res
+	}
+	const cnt = 4096
+	type win struct {
+		off  uint64
+		data []byte
+	}
+	var ref []win
+	off := uint64(0)
+	for {
+		rp := rr.rpc(&wire.Msg{Type: wire.Tread, Fid: 9, Offset: off, Count: cnt})
+		if rp == nil || rp.Type != wire.Rread {
+			res.Inconclusive = fmt.Sprintf("c15 pipelined: reference listing failed at offset %d: %v", off, rp)
+			return res
+		}
+		if len(rp.Data) == 0 {
+			break
+		}
+		ref = append(ref, win{off, append([]byte{}, rp.Data...)})
+		off += uint64(len(rp.Data))
+	}
+	if len(ref) < 8 {
+		res.Inconclusive = fmt.Sprintf("c15 pipelined: the reference listing has only %d windows", len(ref))
+		return res
+	}
+	tag := uint16(100)
+	overlapped := 0
+	for round := 0; round < 8 && len(res.Violations) == 0; round++ {
+		ctx.Beat()
+		// the read at offset 0 …
+		tag++
+		restart := tag
+		_ = rc.Send(&wire.Msg{Type: wire.Tread, Tag: restart, Fid: 9, Offset: 0, Count: cnt})
+		// … and, for as long as it is being served, reads at legal offsets of the second half, a few at a time
+		done := false
+		for batch := 0; batch < 3000 && !done && len(res.Violations) == 0; batch++ {
+			var ms []*wire.Msg
+			var wants []int
+			for i := 0; i < 3; i++ {
+				tag++
+				if tag >= 0xFF00 {
+					tag = 101
+				}
+				w := len(ref)/2 + r.Intn(len(ref)-len(ref)/2)
+				ms = append(ms, &wire.Msg{Type: wire.Tread, Tag: tag, Fid: 9, Offset: ref[w].off, Count: cnt})
+				wants = append(wants, w)
+			}
+			_ = rc.Send(ms...)
+			for i, m := range ms {
+				rp, err := rc.WaitTag(m.Tag, srvlab.W)
+				res.Evals++
+				if err != nil || rp.Msg == nil {
+					res.Inconclusive = "c15 pipelined: a read got no reply"
+					return res
+				}
+				want := ref[wants[i]].data
+				switch {
+				case rp.Msg.Type != wire.Rread:
+					res.Violate("C15;pipelined;error", fmt.Sprintf("a read at the legal offset %d, in flight together with a read at offset 0 on the same fid, was answered %s", m.Offset, rp.Msg.String()), nil)
+				case !bytes.Equal(rp.Msg.Data, want):
+					res.Violate("C15;pipelined;window-differs", fmt.Sprintf("a read at the legal offset %d, in flight together with a read at offset 0 on the same fid, returned %d bytes; the sequential listing has %d bytes of whole entries there (directory unchanged, %d entries)", m.Offset, len(rp.Msg.Data), len(want), nent), nil)
+				}
+				if len(res.Violations) > 0 {
+					break
+				}
+			}
+			if rp, err := rc.WaitTag(restart, time.Microsecond); err == nil && rp != nil {
+				done = true
+				if rp.Msg == nil || rp.Msg.Type != wire.Rread || !bytes.Equal(rp.Msg.Data, ref[0].data) {
+					res.Violate("C15;pipelined;restart-differs", "the read at offset 0 did not return the first window of the listing", nil)
+				}
+			} else {
+				overlapped++
+			}
+		}
+		if !done {
+			if rp, err := rc.WaitTag(restart, srvlab.W); err != nil || rp.Msg == nil {
+				res.Inconclusive = "c15 pipelined: the read at offset 0 got no reply"
+				return res
+			}
+		}
+		res.Sig(fmt.Sprintf("pipelined|%v|round=%d", dotu, round%4))
+	}
+	res.Count("continuation_batches_answered_while_offset0_read_in_progress", int64(overlapped))
+	res.Sample(map[string]interface{}{"scenario": "read at offset 0 in flight together with continuation reads on one directory fid", "entries": nent, "windows": len(ref), "dotu": dotu})
 	return res
 }
